@@ -176,10 +176,24 @@ def make_case(rng):
     chroms = ["chr%d" % (c + 1) for c in range(nchr)]
     broken = {c: (rng.choice(["tips", "cycle3", "haptail"]) if rng.random() < 0.3 else None) for c in chroms}
     allsegs, alllinks = [], []
+    scaffs = {}
     for c in chroms:
-        s, l, _ = gen_chrom(rng, c, ids, broken[c])
+        s, l, sc = gen_chrom(rng, c, ids, broken[c])
         allsegs += s
         alllinks += l
+        scaffs[c] = (sc, len(s))
+    if rng.random() < 0.2:
+        # a further chromosome joined end to end, through a haplotype node, to a small partner chromosome: one component
+        # named after the bigger one, chain-shaped but with scaffold nodes of two stable sequences
+        big, small = "chrJ", "chrK"
+        s1, l1, sc1 = gen_chrom(rng, big, ids, None)
+        s2, l2, sc2 = gen_chrom(rng, small, ids, None)
+        s2, l2 = s2[:1], []          # the partner is a single reference node
+        h = next(ids)
+        allsegs += s1 + s2 + [[h, "hapJ", 3, 2, gen.rseq(rng, 3), []]]
+        alllinks += l1 + l2 + [(sc1[-1], "+", h, "+", 0, []), (h, "+", s2[0][0], "+", 0, [])]
+        chroms.append(big)
+        broken[big] = "hapjoin"
     order = chroms[:]
     rng.shuffle(order)
     return allsegs, alllinks, order, broken
@@ -193,7 +207,7 @@ def main(prop):
                       "each chromosome name has a strict plurality in its component (ties are broken by set order)",
                       "biccs exactness is C15's subject (definition-level checker on the implementation's output, not a general theorem)"]
     ck.canon = ["L lines compared as a multiset", "BO/NO read from the written S lines", "log output ignored"]
-    ck.lean_build(["Gaftools.Props.C06"] if os.path.exists(os.path.join(VERIF, "lean", "Gaftools", "Props", "C06.lean")) else [])
+    ck.lean_build({"C06": ["Gaftools.Props.C06"], "C07": ["Gaftools.Props.C07"], "C18": ["Gaftools.Props.C18"]}[prop])
     ck.audit("%s.lean" % prop)
     rng = ck.rng
     quick = ck.tier == "quick"
@@ -288,14 +302,42 @@ def main(prop):
             roundtrip_io(ck, tmp, 150 if quick else 4000)
     finally:
         shutil.rmtree(tmp, ignore_errors=True)
-    if k2_seen:
-        ck.known_finding("K2", "component with fewer than two articulation points: BO direction not fixed (%d generated cases this run)" % k2_seen)
+    if prop == "C06":
+        k2 = k2_witness()
+        if k2 or k2_seen:
+            ck.known_finding("K2", "component with fewer than two articulation points: BO direction is not fixed by reference offsets and depends on set iteration order (corpus/C06/K2.json: %s; %d generated cases this run)" % (k2 or "not reproduced under the listed hash seeds", k2_seen))
     ck.rule = {
         "C06": "1-3 chromosomes of 3-7 scaffold nodes with SNP/insertion/deletion/inversion/multi-segment/nested bubbles, links declared from either end, ids s<n>/numerals/mixed, shuffled lines, stale BO/NO, some chromosomes made unorderable; every permutation position via shuffled --chromosome_order; each case re-run on a re-shuffled file with other stale tags; non-trivial = at least one orderable chromosome",
         "C07": "same generator; --with-sequence on/off, per-chromosome files and the -complete file/CSV; plus load/write/load round trips of random GFAs with all link shapes, tags of every SAM type, H lines; non-trivial = at least one written chromosome",
         "C18": "same generator with tips / three cut vertices on a cycle / haplotype tail at random chromosomes and positions; written files compared with a run from which the skipped chromosomes are removed; non-trivial = at least one skipped and one ordered chromosome",
     }[prop]
     return ck.finish()
+
+
+def k2_witness():
+    """the recorded witness of K2, under several PYTHONHASHSEEDs (sub-processes): returns a description if it still manifests"""
+    import json
+    w = json.load(open(os.path.join(VERIF, "corpus", "C06", "K2.json")))
+    tmp = tempfile.mkdtemp(prefix="gtv-k2-")
+    try:
+        gen.write_text(os.path.join(tmp, "k.gfa"), w["gfa"])
+        seen = {}
+        code = ("import sys,logging; logging.disable(logging.CRITICAL)\n"
+                "from gaftools.cli import order_gfa\n"
+                "order_gfa.run_order_gfa(sys.argv[1], sys.argv[2], by_chrom=True, chromosome_order=sys.argv[3], with_sequence=False)\n")
+        for hs in w["hashseeds"]:
+            out = os.path.join(tmp, "o%d" % hs)
+            env = dict(os.environ, PYTHONHASHSEED=str(hs))
+            p = subprocess.run(["/venv/bin/python", "-c", code, os.path.join(tmp, "k.gfa"), out, ",".join(w["order"])], env=env,
+                               stdout=subprocess.DEVNULL, stderr=subprocess.DEVNULL, timeout=120)
+            fs = sorted(glob.glob(out + "/*.gfa"))
+            key = open(fs[0]).read() if fs else "skipped"
+            seen.setdefault(key, []).append(hs)
+        if len(seen) > 1:
+            return "x1-x2-x3 ordered differently under hash seeds %s" % sorted(seen.values())
+        return None
+    finally:
+        shutil.rmtree(tmp, ignore_errors=True)
 
 
 def csv_check(ck, c, sp, res, tok, replay):
